@@ -203,13 +203,17 @@ func (m *MatMul) batchedMatMul(A, B tensor.Tensor) (tensor.Tensor, error) {
 
 	var matrixA, matrixB, matrixOut tensor.Tensor
 
+	nRows := shapeA[len(shapeA)-2]
+	nInner := shapeA[len(shapeA)-1]
+	nCols := shapeB[len(shapeB)-1]
+
 	for {
-		matrixA, err = A.Slice(slices...)
+		matrixA, err = m.sliceMatrix(A, slices, nRows, nInner)
 		if err != nil {
 			return nil, err
 		}
 
-		matrixB, err = B.Slice(slices...)
+		matrixB, err = m.sliceMatrix(B, slices, nInner, nCols)
 		if err != nil {
 			return nil, err
 		}
@@ -219,9 +223,18 @@ func (m *MatMul) batchedMatMul(A, B tensor.Tensor) (tensor.Tensor, error) {
 			return nil, err
 		}
 
-		_, err = tensor.MatMul(matrixA, matrixB, tensor.WithReuse(matrixOut))
-		if err != nil {
-			return nil, err
+		if matrixOut.Dims() == nMatrixDims {
+			_, err = tensor.MatMul(matrixA, matrixB, tensor.WithReuse(matrixOut))
+			if err != nil {
+				return nil, err
+			}
+		} else {
+			// A matrix of 1 by 1 is sliced as a scalar, which can not be used to store the
+			// result in, so we set its only value in the output tensor directly.
+			err = m.setSingleValue(out, slices, matrixA, matrixB)
+			if err != nil {
+				return nil, err
+			}
 		}
 
 		incrementSucceeded := incrementSlices(slices, outerShape)
@@ -231,6 +244,54 @@ func (m *MatMul) batchedMatMul(A, B tensor.Tensor) (tensor.Tensor, error) {
 	}
 
 	return out, nil
+}
+
+// nMatrixDims is the number of dimensions of a matrix.
+const nMatrixDims = 2
+
+// sliceMatrix extracts the matrix at the position given by the slices from a tensor with stacked
+// matrices. The slice of a matrix of 1 by 1 is a scalar, that is turned into a matrix again.
+func (m *MatMul) sliceMatrix(t tensor.Tensor, slices []tensor.Slice, nRows, nCols int) (tensor.Tensor, error) {
+	view, err := t.Slice(slices...)
+	if err != nil {
+		return nil, err
+	}
+
+	if view.Dims() == nMatrixDims {
+		return view, nil
+	}
+
+	matrix, ok := view.Materialize().Clone().(tensor.Tensor)
+	if !ok {
+		return nil, ops.ErrTypeAssert("tensor.Tensor", view.Materialize().Clone())
+	}
+
+	if err := matrix.Reshape(nRows, nCols); err != nil {
+		return nil, err
+	}
+
+	return matrix, nil
+}
+
+// setSingleValue multiplies 2 matrices that have a matrix of 1 by 1 as result, and sets its
+// value at the position given by the slices in the output tensor.
+func (m *MatMul) setSingleValue(out tensor.Tensor, slices []tensor.Slice, matrixA, matrixB tensor.Tensor) error {
+	result, err := tensor.MatMul(matrixA, matrixB)
+	if err != nil {
+		return err
+	}
+
+	value, err := result.At(0, 0)
+	if err != nil {
+		return err
+	}
+
+	coords := make([]int, 0, len(slices)+nMatrixDims)
+	for _, slice := range slices {
+		coords = append(coords, slice.Start())
+	}
+
+	return out.SetAt(value, append(coords, 0, 0)...)
 }
 
 // incrementSlices increments all slice by 1. It is used to extract the next matrices
